@@ -217,6 +217,13 @@ def oracle(f, probes=(), view_regs=()):
             if types.get(k) in BOUNDED and c.has_data() and c.has_bounds() and c.bounds.has_data():
                 if tuple(c.bounds.shape[:c.data.ndim]) != tuple(c.data.shape):
                     bad.append(["ii", f"bounds of {k!r} have shape {c.bounds.shape}, data {c.data.shape}"])
+        # a dimension coordinate construct has 1-dimensional data and spans exactly one axis
+        for k, c in per_type["dimension_coordinate"].items():
+            if c.has_data() and c.data.ndim != 1:
+                bad.append(["ii", f"dimension coordinate {k!r} has {c.data.ndim}-dimensional data"])
+            ax = C.data_axes().get(k)
+            if c.has_data() and ax is not None and len(ax) != 1:
+                bad.append(["ii", f"dimension coordinate {k!r} spans {len(ax)} axes {tuple(ax)}"])
         # (iii) field data axes
         d = f.get_data(None)
         fax = f.get_data_axes(default=None)
